@@ -128,7 +128,7 @@ impl C15 {
 
 impl Monitor for C15 {
     fn total_cases(&self) -> u64 {
-        elfgen::bundled().len() as u64 + self.tier.pick(60_000, 2_000_000)
+        elfgen::bundled().len() as u64 + self.tier.pick(300_000, 6_000_000)
     }
     fn run_case(&mut self, k: u64, rng: &mut Rng, col: &mut Collector) {
         let nb = elfgen::bundled().len() as u64;
